@@ -43,7 +43,7 @@ func (k *c15K) fld(name string) string { return name }
 
 func checkC15(c *Ctx) {
 	r := c.R
-	r.Explanation = "Decides structural necessary conditions of C15 on package ttlcache. Only the exported API, haxmap and time are name anchors; unexported fields, the entry type, helpers and the goroutine body are resolved by role (the *haxmap.Map field of Cache, the type stored in it and its time.Time / value fields, the field of Cache with a Now() method, the integer field NewCache fills from CacheOptions.MaxTTL, the channel the goroutine started by NewCache closes / selects on) and every rule follows calls into same-package helpers, bound methods, closures and func values with known targets. (U1) every return of Get that can report ok=true is reached, on every path, only under `entry.exp > clock.Now()` (strict), entry being the result of that call's lookup on the map and Now() a reading of the cache's own clock taken during the call; (U2) every returning path of Set stores into the map; the stored expiry is, on every path, clock.Now().Add(T*time.Second) with Now() read from the cache clock during Set (an expiry taken from an existing entry is a violation); T is ttl only where maxTTL<=0 or ttl<=maxTTL is established and maxTTL only where maxTTL>0 and ttl>=maxTTL is; the stored value is Set's value parameter; NewCache wires CacheOptions.MaxTTL into the cap field; (U3) every key Cleanup hands to a delete is the key parameter of a ForEach callback over the map, committed on every path only under `clock.Now() >(=) exp` of that callback's own entry (predicates passed as func values are evaluated in Cleanup's context); every delete the background goroutine can perform (through Cleanup or directly through the helpers Cleanup is made of, whatever the func value) satisfies the same expired-only condition, it performs no other mutation of the store, and none of it is started with `go`; (U4) every return of Stop is preceded by a receive on the done channel; Stop closes the stop channel, not after waiting; the done channel is closed only by the goroutine NewCache starts, on every exit, with no cleaning after it; every wait of that goroutine is a select with a stop-channel case after which the wait is not reached again; the done channel is created before the goroutine starts and NewCache always starts it; (U5) Delete always deletes from the map; in Reset's context the ForEach callback commits every key on every feasible path and never stops the iteration, and the keys are deleted; (U6) the map is mutated only by the audited entry points and Get/Set/Delete pass their key unchanged. NOT decided: the history-level claim itself (rests on haxmap's semantics and the documented cleanup/refresh race); concurrency of Set/Get; ttl<=0 (outside the quantifier: NOTE only); overflow of ttl*time.Second; that the periodic cleaner actually runs Cleanup; join/stop mechanisms other than channel fields of Cache (sync.WaitGroup, context) are UNDECIDED."
+	r.Explanation = "Decides structural necessary conditions of C15 on package ttlcache. Only the exported API, haxmap and time are name anchors; unexported fields, the entry type, helpers and the goroutine body are resolved by role (the *haxmap.Map field of Cache, the type stored in it and its time.Time / value fields, the field of Cache with a Now() method, the integer field NewCache fills from CacheOptions.MaxTTL, the channel the goroutine started by NewCache closes / selects on) and every rule follows calls into same-package helpers, bound methods, closures and func values with known targets. (U1) every return of Get that can report ok=true is reached, on every path, only under `entry.exp > clock.Now()` (strict), entry being the result of that call's lookup on the map and Now() a reading of the cache's own clock taken during the call; (U2) every returning path of Set stores into the map; the stored expiry is, on every path, clock.Now().Add(T*time.Second) with Now() read from the cache clock during Set (an expiry taken from an existing entry is a violation); T is ttl only where maxTTL<=0 or ttl<=maxTTL is established and maxTTL only where maxTTL>0 and ttl>=maxTTL is; the stored value is Set's value parameter; NewCache wires CacheOptions.MaxTTL into the cap field; (U3) every key Cleanup hands to a delete is the key parameter of a ForEach callback over the map, committed on every path only under `clock.Now() >(=) exp` of that callback's own entry — the key slice must also be created EMPTY (a make with non-zero length hands n empty-string keys to the delete) and must not receive constant keys — (predicates passed as func values are evaluated in Cleanup's context); every delete the background goroutine can perform (through Cleanup or directly through the helpers Cleanup is made of, whatever the func value) satisfies the same expired-only condition, it performs no other mutation of the store, and none of it is started with `go`; (U4) every return of Stop is preceded by a receive on the done channel; Stop closes the stop channel, not after waiting; the done signal is given only by the goroutine NewCache starts, on every exit, and is that goroutine's LAST action — no call (cleaning, or any other exit work such as a deferred ticker Stop registered before it) follows it, in the body, in the deferred calls or inside the helper that gives it; every wait of that goroutine is a select with a stop-channel case after which the wait is not reached again; the done channel is created before the goroutine starts and NewCache always starts it; (U5) Delete always deletes from the map; in Reset's context the ForEach callback commits every key on every feasible path and never stops the iteration, and the keys are deleted; (U6) the map is mutated only by the audited entry points and Get/Set/Delete pass their key unchanged. NOT decided: the history-level claim itself (rests on haxmap's semantics and the documented cleanup/refresh race); concurrency of Set/Get; ttl<=0 (outside the quantifier: NOTE only); overflow of ttl*time.Second; that the periodic cleaner actually runs Cleanup; join/stop mechanisms other than channel fields of Cache (sync.WaitGroup, context) are UNDECIDED."
 	r.Assumptions = append(r.Assumptions,
 		"haxmap.Map Get/Set/Del/ForEach have their documented map semantics (ForEach stops when the callback returns false)",
 		"time.Time.After/Before/Equal/Compare/Sub/Add and clock.Now/Since have their documented meaning",
@@ -1522,11 +1522,53 @@ func c15CellStores(a *ssa.Alloc) (stores []*ssa.Store, ok bool) {
 	return
 }
 
+// c15IndexedFill: some element of the slice held in cell is assigned by index
+// (keys[i] = k), in the cell's function or in a closure capturing it.
+func c15IndexedFill(cell *ssa.Alloc) bool {
+	found := false
+	var walk func(v ssa.Value, depth int)
+	walk = func(v ssa.Value, depth int) {
+		if depth > 4 {
+			return
+		}
+		for _, r := range refs(v) {
+			switch t := r.(type) {
+			case *ssa.UnOp:
+				if t.Op != token.MUL {
+					continue
+				}
+				for _, rr := range refs(t) {
+					if ia, ok := rr.(*ssa.IndexAddr); ok && ia.X == ssa.Value(t) {
+						for _, r3 := range refs(ia) {
+							if st, ok := r3.(*ssa.Store); ok && st.Addr == ia {
+								found = true
+							}
+						}
+					}
+				}
+			case *ssa.MakeClosure:
+				if fn, ok := t.Fn.(*ssa.Function); ok {
+					for i, b := range t.Bindings {
+						if b == v && i < len(fn.FreeVars) {
+							walk(fn.FreeVars[i], depth+1)
+						}
+					}
+				}
+			}
+		}
+	}
+	walk(cell, 0)
+	return found
+}
+
 // c15KeyAdd: the point where a key is committed to deletion (appended to the
 // slice later deleted, or passed to a delete directly), in its activation.
 type c15KeyAdd struct {
 	Site c15Site
 	Key  ssa.Value
+	// Zero: not a key put in by the program but the zero-value elements the
+	// slice is created with (make([]string, n) with n != 0): n copies of "".
+	Zero bool
 }
 
 type c15Del struct {
@@ -1577,7 +1619,7 @@ func (k *c15K) analyseDeletes(ctx *c15Ctx, root *ssa.Function, renv *c15Env) *c1
 		_, cc, _ := k.mapMethod(d.In, d.Env)
 		info := c15Del{Site: d}
 		if n, _, _ := k.mapMethod(d.In, d.Env); n == "GetAndDel" {
-			info.Adds = []c15KeyAdd{{d, cc.Args[1]}}
+			info.Adds = []c15KeyAdd{{Site: d, Key: cc.Args[1]}}
 		} else {
 			info.Adds, info.Unrec, info.Empty = k.keyAdds(a, cc.Args[1], d.Env, d, 0)
 		}
@@ -1611,7 +1653,7 @@ func (k *c15K) keyAdds(a *c15DelAnalysis, v ssa.Value, env *c15Env, site c15Site
 					}
 				}
 			}
-			adds = append(adds, c15KeyAdd{at, e})
+			adds = append(adds, c15KeyAdd{Site: at, Key: e})
 		}
 		return adds, "", false
 	}
@@ -1649,6 +1691,15 @@ func (k *c15K) keyAdds(a *c15DelAnalysis, v ssa.Value, env *c15Env, site c15Site
 		}
 		switch t := st.Val.(type) {
 		case *ssa.MakeSlice:
+			if kc, ok := t.Len.(*ssa.Const); ok && kc.Value != nil && kc.Int64() == 0 {
+				continue // created empty (any capacity)
+			}
+			// created with a non-zero length: unless the elements are then filled by
+			// index, the slice starts with that many zero-value keys
+			if cell == nil || c15IndexedFill(cell) {
+				return nil, "the key slice is created with a non-zero length and filled by index (or lives in a field): not analysed", false
+			}
+			adds = append(adds, c15KeyAdd{Site: c15Site{st, nil}, Zero: true})
 			continue
 		case *ssa.Const:
 			if t.IsNil() {
@@ -1656,6 +1707,16 @@ func (k *c15K) keyAdds(a *c15DelAnalysis, v ssa.Value, env *c15Env, site c15Site
 			}
 		case *ssa.Slice:
 			if sameSlot(t.X) {
+				continue
+			}
+			if hk, ok := t.High.(*ssa.Const); ok && hk.Value != nil && hk.Int64() == 0 {
+				continue // x[:0]: empty whatever x is
+			}
+			// a slice literal: its elements are keys handed to the delete
+			if elems, ok := varargsElems(t); ok {
+				for _, e := range elems {
+					adds = append(adds, c15KeyAdd{Site: c15Site{st, nil}, Key: e})
+				}
 				continue
 			}
 		case *ssa.Call:
@@ -1688,7 +1749,7 @@ func (k *c15K) keyAdds(a *c15DelAnalysis, v ssa.Value, env *c15Env, site c15Site
 				}
 				for _, ce := range ctxs {
 					for _, e := range elems {
-						adds = append(adds, c15KeyAdd{c15Site{t, ce}, e})
+						adds = append(adds, c15KeyAdd{Site: c15Site{t, ce}, Key: e})
 					}
 				}
 				continue
@@ -1696,7 +1757,13 @@ func (k *c15K) keyAdds(a *c15DelAnalysis, v ssa.Value, env *c15Env, site c15Site
 		}
 		return nil, "the key slice variable is assigned something other than make/append(itself, keys...)", false
 	}
-	return adds, "", len(adds) == 0
+	real := 0
+	for _, a := range adds {
+		if !a.Zero {
+			real++
+		}
+	}
+	return adds, "", real == 0
 }
 
 // callbackOf resolves the key committed at add to the ForEach callback
@@ -1781,6 +1848,14 @@ func (k *c15K) expiredOnly(ctx *c15Ctx, a *c15DelAnalysis, fname string, sink c1
 			n++
 			at := add.Site.In
 			pos := k.p.Pos(instrPos(at))
+			if add.Zero {
+				sink.viol(fmt.Sprintf("%s key slice created non-empty in %s", fname, FuncName(k.p, at.Parent())), pos, "the slice of keys handed to the delete is created with a non-zero LENGTH (make([]string, n) instead of make([]string, 0, n)) and only appended to: besides the collected keys the delete receives n copies of the empty string, so a live entry stored under the key \"\" that nobody touched disappears on every Cleanup")
+				continue
+			}
+			if kc, isConst := add.Key.(*ssa.Const); isConst && kc.Value != nil {
+				sink.viol(fmt.Sprintf("%s constant key committed in %s", fname, FuncName(k.p, at.Parent())), pos, "the constant key "+kc.Value.String()+" is handed to the delete whatever the state of its entry: a live entry stored under that key disappears on every Cleanup")
+				continue
+			}
 			cb := k.callbackOf(add)
 			if cb == nil {
 				sink.undec("%s: the key scheduled for deletion at %s is not the key parameter of a ForEach callback over the map", fname, pos)
@@ -1932,6 +2007,12 @@ func (k *c15K) checkDeleteReset() {
 		byCb := map[*c15Env][]ssa.Instruction{}
 		var order []*c15Env
 		for _, add := range d.Adds {
+			if add.Zero {
+				continue // extra "" keys are harmless where every key is removed
+			}
+			if _, isConst := add.Key.(*ssa.Const); isConst {
+				continue
+			}
 			cb := k.callbackOf(add)
 			if cb == nil {
 				undec = "a key committed at " + p.Pos(instrPos(add.Site.In)) + " is not the key parameter of a ForEach callback over the map"
@@ -2225,39 +2306,19 @@ func (k *c15K) checkStop() {
 				}
 			})
 		})
-		// (ii) nothing cleans after the close (in the goroutine body itself)
-		after := ""
-		var ff *FlagFlow
-		ff = &FlagFlow{Fn: g, Must: false, Transfer: func(in ssa.Instruction, st uint64) uint64 {
-			if _, isD := in.(*ssa.Defer); isD && !ff.Replaying {
-				return st
-			}
-			if isCloseRun(in, genv) {
-				return st | 1
-			}
-			if st&1 != 0 {
-				if ci, ok := in.(ssa.CallInstruction); ok {
-					if _, isMap := k.mapCallE(in, genv, ""); isMap {
-						after = p.Pos(instrPos(in))
-					}
-					ts, _ := k.x.callTargets(ci.Common(), genv)
-					for _, tg := range ts {
-						if cleanup != nil && tg.Fn == origin(cleanup) || k.reachesMutation(tg, genv) {
-							after = p.Pos(instrPos(in))
-						}
-					}
-				}
-			}
-			return st
-		}}
-		ff.Run()
+		// (ii) the done signal is the goroutine's last action: after it nothing
+		// cleans, and no other call is made (in the body, in the deferred calls
+		// that run after it, or after it inside the helper that gives it)
+		after, afterWhat := k.afterSignal(g, genv, cleanup, 0)
 		switch {
 		case nr > 0 && !okc:
 			r.Violation("C15.U4-cleaner-exit", gname+" closes the done channel on exit", wherecS, "the cleaner goroutine can exit (at "+wherecS+") without closing "+runName+": Stop waits forever")
-		case after != "":
+		case after != "" && afterWhat == "cleans":
 			r.Violation("C15.U4-cleaner-exit", gname+" closes the done channel on exit", after, "the cleaner goroutine still touches the cache (at "+after+") after closing "+runName+": Stop returns while the cleaner is still cleaning")
+		case after != "":
+			r.Violation("C15.U4-cleaner-exit", gname+" closes the done channel on exit", after, "the cleaner goroutine still calls "+afterWhat+" (at "+after+") after it has signalled "+runName+" (deferred calls run last-registered-first: the done signal must be registered first / given last): Stop's wait is released, and Stop returns, while the cleaner goroutine is still running its exit work")
 		default:
-			r.OK("C15.U4-cleaner-exit", gname+" closes the done channel on exit", p.Pos(g.Pos()), "the done channel is closed on every exit of the goroutine body, after its last cleaning step")
+			r.OK("C15.U4-cleaner-exit", gname+" closes the done channel on exit", p.Pos(g.Pos()), "the done signal is given on every exit of the goroutine body and is its last action (no call follows it)")
 		}
 
 		k.checkPeriodic(ctx, cl.g, gname, cleanup)
@@ -2304,6 +2365,92 @@ func (k *c15K) checkStop() {
 			r.OK("C15.U4-cleaner-start", construct, p.Pos(instrPos(goIn)), "the done channel is created before the go statement and NewCache always starts the cleaner")
 		}
 	}
+}
+
+// afterSignal: in the activation (fn, env), can a call be executed after the
+// done signal has been given? Returns the position of such a call and what it
+// is ("cleans" for a mutation of the store / Cleanup, else the callee's name).
+// Deferred calls are taken where they run; a helper that gives the signal is
+// looked into (a call after the signal inside it counts, and everything after
+// the helper call in the caller does too).
+func (k *c15K) afterSignal(fn *ssa.Function, env *c15Env, cleanup *ssa.Function, depth int) (pos, what string) {
+	p := k.p
+	gives := func(tg c15Target) bool {
+		if !k.x.inlinable(tg.Fn) {
+			return false
+		}
+		found := false
+		ne := k.x.activate(tg, nil, env, nil, "call")
+		k.x.walk(k.x.newCtx(), tg.Fn, ne, nil, func(in ssa.Instruction, ie *c15Env) {
+			if !k.joinSignal(in, ie) {
+				return
+			}
+			for e := ie; e != nil && e != env; e = e.up {
+				if e.how == "go" {
+					return // given by a goroutine the helper spawns, not by the helper
+				}
+			}
+			found = true
+		}, nil)
+		return found
+	}
+	note := func(np, nw string) {
+		if pos == "" || (nw == "cleans" && what != "cleans") {
+			pos, what = np, nw
+		}
+	}
+	var ff *FlagFlow
+	ff = &FlagFlow{Fn: fn, Must: false, Transfer: func(in ssa.Instruction, st uint64) uint64 {
+		if _, isD := in.(*ssa.Defer); isD && !ff.Replaying {
+			return st
+		}
+		if k.joinSignal(in, env) {
+			return st | 1
+		}
+		ci, isCall := in.(ssa.CallInstruction)
+		if !isCall {
+			return st
+		}
+		if _, isGo := in.(*ssa.Go); isGo {
+			return st
+		}
+		if st&1 != 0 {
+			if builtinName(ci) != "" {
+				return st
+			}
+			w := "a function value"
+			if obj := calleeObj(ci); obj != nil {
+				w = obj.FullName()
+			}
+			if _, isMap := k.mapCallE(in, env, ""); isMap {
+				w = "cleans"
+			}
+			ts, _ := k.x.callTargets(ci.Common(), env)
+			for _, tg := range ts {
+				if (cleanup != nil && tg.Fn == origin(cleanup)) || k.reachesMutation(tg, env) {
+					w = "cleans"
+				}
+			}
+			note(p.Pos(instrPos(in)), w)
+			return st
+		}
+		// a helper that gives the signal: look inside it; afterwards the signal has been given
+		if depth < 3 && builtinName(ci) == "" {
+			ts, _ := k.x.callTargets(ci.Common(), env)
+			for _, tg := range ts {
+				if gives(tg) {
+					ne := k.x.activate(tg, ci.Common().Args, env, in, "call")
+					if ip, iw := k.afterSignal(tg.Fn, ne, cleanup, depth+1); ip != "" {
+						note(ip, iw)
+					}
+					return st | 1
+				}
+			}
+		}
+		return st
+	}}
+	ff.Run()
+	return pos, what
 }
 
 // checkPeriodic: the goroutine mutates the store only through Cleanup, synchronously.
